@@ -120,6 +120,8 @@ func sampleTyped(rng *rand.Rand, pkg CorpusPkg, mode Mode, i int) CScenario {
 		Prefix: []string{"", "", "/api/v1", "/x"}[rng.Intn(4)],
 		// half of the scenarios override the server URL per call, all calls with one URL value the caller owns
 		Override: rng.Intn(2) == 0,
+		// half of the scenarios give the server the user's own NotFound and MethodNotAllowed handlers
+		CustomNF: rng.Intn(2) == 0,
 	}
 	switch rng.Intn(4) {
 	case 0:
@@ -375,6 +377,10 @@ func typedC15(r *CRecord, pkg string) []problem {
 		if !s.Explicit {
 			add("exactly one response", fmt.Sprintf("delivery %d: the server wrote nothing", i))
 		}
+		// the user's own NotFound / MethodNotAllowed handlers: never more than once, never next to a handler
+		if n := s.CustomNotFound + s.CustomNotAllow; n > 0 && (n > 1 || s.MiddlewareOps > 0 || s.HandlerCalls > 0) {
+			add("a configured NotFound/MethodNotAllowed handler is the only answer to a request it is given", fmt.Sprintf("delivery %d: NotFound ran %d times, MethodNotAllowed %d times, middleware %d, handler %d", i, s.CustomNotFound, s.CustomNotAllow, s.MiddlewareOps, s.HandlerCalls))
+		}
 		if s.MiddlewareOps > 1 || s.HandlerCalls > 1 {
 			add("handler invoked at most once", fmt.Sprintf("delivery %d: middleware ran %d times, handler %d times", i, s.MiddlewareOps, s.HandlerCalls))
 		}
@@ -535,6 +541,7 @@ func (e *Engine) checkTyped(c *core.Ctx, id string) ([]core.Violation, map[strin
 	variantsSeen := map[string]bool{}
 	distinct := map[string]bool{}
 	syncPoints, syncYields := 0, 0
+	customCalls, overrideCalls := 0, 0
 	configured, fired := map[string]int{}, map[string]int{}
 	type failure struct {
 		i int
@@ -597,6 +604,9 @@ func (e *Engine) checkTyped(c *core.Ctx, id string) ([]core.Violation, map[strin
 					for _, p := range typedC15(cr, pkg) {
 						ps = append(ps, failure{i, p, cr})
 					}
+					for _, p := range routingRule(cr, e.matchers(pkg), pkg, scs[i].Prefix, scs[i].CustomNF) {
+						ps = append(ps, failure{i, p, cr})
+					}
 				case "C19":
 					if conc {
 						for _, p := range typedC19(aloneBy[[2]int{cr.Task, cr.Op}], cr, pkg) {
@@ -633,6 +643,12 @@ func (e *Engine) checkTyped(c *core.Ctx, id string) ([]core.Violation, map[strin
 						st.Edge++
 					}
 					st.Defaults += cr.T.Defaults
+				}
+				for _, sd := range cr.Sides {
+					customCalls += sd.CustomNotFound + sd.CustomNotAllow
+				}
+				if scs[i].Override && cr.T != nil {
+					overrideCalls++
 				}
 				if f := cr.Call.Fault; f != nil {
 					configured[f.Kind]++
@@ -706,6 +722,7 @@ func (e *Engine) checkTyped(c *core.Ctx, id string) ([]core.Violation, map[strin
 		"per_package": stats, "operations_exercised": len(opsSeen), "operation_response_variants_reached": len(variantsSeen),
 		"delivery_demanded_for": demanded, "distinct_schedules": len(distinct), "sync_operation_points": syncPoints, "sync_operation_preemptions": syncYields,
 		"fault_kinds_configured": configured, "fault_kinds_fired": fired,
+		"configured_not_found_or_method_not_allowed_handler_ran": customCalls, "calls_with_overridden_server_url": overrideCalls,
 		"rule": "values of the generated request, parameter and response types are made by reflection from the call's seed (core domain: short alphanumeric text, small numbers, whole-second UTC times, 1-3 element arrays; edge: delimiters, empty text and arrays, extremes of every numeric width, far instants); the handler's, the middleware's and the caller's copies are compared as trees with what was supplied",
 	}
 	return vs, info, nil
@@ -732,7 +749,7 @@ func (e *Engine) minimiseTyped(id string, sc CScenario, r *CRecord, key string, 
 				ps = append(ps, typedDeliver(cr, sc.Pkg, deliver[sc.Pkg])...)
 			case "C15":
 				ps = append(ps, typedC15(cr, sc.Pkg)...)
-				ps = append(ps, routingRule(cr, e.matchers(sc.Pkg), sc.Pkg, sc.Prefix)...)
+				ps = append(ps, routingRule(cr, e.matchers(sc.Pkg), sc.Pkg, sc.Prefix, sc.CustomNF)...)
 			}
 		}
 	}
